@@ -623,6 +623,9 @@ func c07(c *core.Ctx) {
 		rFO.Check(len(fields) >= 10, pkgSwamp+":index-fields", build.Decl.Pos(), "index fields bound at buildBeacon call sites", "fewer than 10 index fields could be bound to a type and direction")
 	}
 
+	rLI := c.Rule("C07.lazyinit", "a beacon method that marks the index initialized as a side effect is called on a lazily built index field (or a Beacon parameter) only after buildBeacon of that index in the same function or under an IsInitialized() guard on the same expression", 20)
+	lazyInitRule(c, rLI)
+
 	rE := c.Rule("C07.enum", "every index type constant has an entry (or the key default) in the type->sorter table used by the index build", 14)
 	{
 		btT := p.Named(pkgSwamp, "BeaconType")
@@ -635,4 +638,114 @@ func c07(c *core.Ctx) {
 		}
 	}
 
+}
+
+// lazyInitRule: the swamp's index beacons are built lazily by buildBeacon, which is skipped once the
+// beacon reports IsInitialized. Almost every beacon method marks the beacon initialized as a side
+// effect, so calling one on an index field that may not be built yet makes the cold build never run
+// (the index then misses every record that existed before). Every such call must be preceded by the
+// build of that field in the same function or be guarded by IsInitialized() on the same expression.
+func lazyInitRule(c *core.Ctx, r *core.Rule) {
+	p := c.P
+	// beacon methods that set the initialized flag
+	initF := p.MustField(pkgBeacon, "beacon", "initialized")
+	marks := map[string]bool{}
+	for _, m := range p.FuncsIn(pkgBeacon) {
+		if m.Decl.Body == nil || m.Decl.Recv == nil {
+			continue
+		}
+		for _, a := range core.Accesses(m.Info(), m.Decl.Body, map[*types.Var]bool{initF: true}, true) {
+			if a.Write && m.Obj.Name() != "SetInitialized" && m.Obj.Name() != "Reset" {
+				marks[m.Obj.Name()] = true
+			}
+		}
+	}
+	build := c.Fn(pkgSwamp + ".swamp.buildBeacon")
+	// lazily built index fields: the ones handed to buildBeacon
+	lazy := map[*types.Var]bool{}
+	for _, f := range p.FuncsIn(pkgSwamp) {
+		if f.Decl.Body == nil {
+			continue
+		}
+		core.Calls(f.Decl.Body, true, func(call *ast.CallExpr) {
+			if core.IsWsCallTo(f.Info(), call, build.Key) {
+				for _, a := range call.Args {
+					if fv := core.FieldOf(f.Info(), a); fv != nil {
+						lazy[fv] = true
+					}
+				}
+			}
+		})
+	}
+	beaconT := p.Named(pkgBeacon, "Beacon")
+	n := 0
+	for _, f := range p.FuncsIn(pkgSwamp) {
+		if f.Decl.Body == nil || f == build {
+			continue
+		}
+		info := f.Info()
+		sig := f.Obj.Type().(*types.Signature)
+		for _, body := range core.Bodies(f.Decl) {
+			var fl *core.Flow
+			core.Calls(body, false, func(call *ast.CallExpr) {
+				fo := core.Callee(info, call)
+				if fo == nil || !marks[fo.Name()] || fo.Pkg() == nil || core.Short(fo.Pkg().Path()) != pkgBeacon {
+					return
+				}
+				recv := core.RecvExpr(call)
+				if recv == nil {
+					return
+				}
+				fv := core.FieldOf(info, recv)
+				isParam := false
+				if o := core.ObjOf(info, recv); o != nil && fv == nil {
+					for i := 0; i < sig.Params().Len(); i++ {
+						if sig.Params().At(i) == o && types.Identical(o.Type(), beaconT) {
+							isParam = true
+						}
+					}
+				}
+				if !(fv != nil && lazy[fv]) && !isParam {
+					return
+				}
+				n++
+				c.Touch(f)
+				if fl == nil {
+					fl = core.NewFlow(p, info, body)
+				}
+				l, ok := fl.Locate(call)
+				if !ok {
+					return
+				}
+				rs := core.ExprStr(recv)
+				guarded := false
+				for _, ft := range fl.FactsAt(l) {
+					if gc, isCall := core.Unparen(ft.Expr).(*ast.CallExpr); isCall && ft.Truth {
+						if gfo := core.Callee(info, gc); gfo != nil && gfo.Name() == "IsInitialized" && core.ExprStr(core.RecvExpr(gc)) == rs {
+							guarded = true
+						}
+					}
+				}
+				built := false
+				core.Calls(body, false, func(bc *ast.CallExpr) {
+					if !core.IsWsCallTo(info, bc, build.Key) {
+						return
+					}
+					for _, a := range bc.Args {
+						if core.ExprStr(a) == rs {
+							if lb, okb := fl.Locate(bc); okb && fl.Dominates(lb, l) {
+								built = true
+							}
+						}
+					}
+				})
+				name := rs
+				r.Check(guarded || built, f.Key+":"+name+"."+fo.Name(), call.Pos(), "index built or known initialized before the call",
+					"beacon."+fo.Name()+" marks the index initialized as a side effect; it is called on "+name+" without a preceding buildBeacon of that index and without an IsInitialized() guard: on a freshly loaded swamp the empty index is then taken for built, the cold build never runs, and every record that existed before is missing from reads, shifts and expiry claims through this index")
+			})
+		}
+	}
+	if n == 0 {
+		r.Bad(pkgSwamp+":index-calls", token.NoPos, "no calls on lazily built index fields found")
+	}
 }
